@@ -511,6 +511,240 @@ def check_history(case):
     return dict(nt=compared >= 3 and kinds_live >= 2, cls=sorted(set(labels)), ratio=worst)
 
 
+# ------------------------------------------------------------------ spellings
+
+
+SCALES = ["UTC", "UTC", "TT", "TDB", "GPS", "TAI", "UT1"]
+SOURCES = ["text", "text", "lines", "from_orbit", "from_string", "tle-pickle"]
+CLONES = ["none", "none", "copy", "copy.copy", "deepcopy", "pickle"]
+ROUTES = ["date", "date", "timedelta", "iter-dates", "iter-range", "ephem", "native-date", "native-timedelta"]
+HELD = ["tle", "tle", "keplerian_mean", "keplerian_mean_circular", "keplerian", "keplerian_eccentric",
+        "keplerian_circular", "equinoctial"]
+# UTC midnights that follow a leap second, as (year, day of year): targets are massed around them
+LEAP_DAYS = [(1973, 1), (1974, 1), (1975, 1), (1976, 1), (1977, 1), (1978, 1), (1979, 1), (1980, 1), (1981, 182),
+             (1982, 182), (1983, 182), (1985, 182), (1988, 1), (1990, 1), (1991, 1), (1992, 183), (1993, 182),
+             (1994, 182), (1996, 1), (1997, 182), (1999, 1), (2006, 1), (2009, 1), (2012, 183), (2015, 182), (2017, 1)]
+_NEAR = gt.uniform_int(-140 * 10**6, 140 * 10**6)
+
+
+def _boundary_offsets(f):
+    """Offsets (us from the epoch) of the UTC midnights, turns of the year and leap-second midnights
+    that lie within 30 days of the epoch."""
+    mjd, us = epoch_us(f)
+    out = {"midnight": [], "new-year": [], "leap-second": []}
+    leap = {tf.mjd_of_civil(y, 1, 1) + d - 1 for y, d in LEAP_DAYS}
+    y0 = tf.year4(f["eyy"])
+    newyear = {tf.mjd_of_civil(y, 1, 1) for y in (y0, y0 + 1)}
+    for day in range(mjd - 29, mjd + 31):
+        off = (day - mjd) * DAY_US - us
+        if abs(off) > SPAN_US - 141 * 10**6:
+            continue
+        out["midnight"].append(off)
+        if day in newyear:
+            out["new-year"].append(off)
+        if day in leap:
+            out["leap-second"].append(off)
+    return out
+
+
+@st.composite
+def spelling_case(draw):
+    """One element set, one target; every way of saying it is drawn: the label of the target date and
+    of the orbit's date, where the target lies (uniform / within 140 s of a UTC midnight, of the turn of
+    the year, of a leap-second midnight), where the orbit comes from, the form and frame it is held
+    in, how it was cloned, and the route by which the state is asked for."""
+    f = draw(gt.sgp4_fields(draw(st.sampled_from(["native", "native", "near", "deep"]))))
+    where = draw(st.sampled_from(["uniform", "uniform", "midnight", "new-year", "leap-second"]))
+    dt = draw(_DT)
+    if where != "uniform":
+        b = _boundary_offsets(f)[where] or _boundary_offsets(f)["midnight"]
+        dt = b[draw(st.integers(0, 999)) % len(b)] + draw(_NEAR)
+    return dict(tle=f, dt_us=dt, where=where, date_scale=draw(st.sampled_from(SCALES)),
+                orbit_scale=draw(st.sampled_from(SCALES)), source=draw(st.sampled_from(SOURCES)),
+                held=draw(st.sampled_from(HELD)), held_frame=draw(st.sampled_from(["TEME", "TEME", "EME2000"])),
+                clone=draw(st.sampled_from(CLONES)), clone_when=draw(st.sampled_from(["fresh", "initialised"])),
+                route=draw(st.sampled_from(ROUTES)), npts=draw(st.integers(1, 4)),
+                step_us=draw(gt.uniform_int(1, 7200 * 10**6)) * draw(st.sampled_from([1, 1, -1])))
+
+
+def _clone(obj, how):
+    import copy
+    import pickle
+
+    if how == "copy":
+        return obj.copy()
+    if how == "copy.copy":
+        return copy.copy(obj)
+    if how == "deepcopy":
+        return copy.deepcopy(obj)
+    if how == "pickle":
+        return pickle.loads(pickle.dumps(obj))
+    return obj
+
+
+def check_spellings(case):
+    """Same element set, same instant, other spelling -> the reference state."""
+    import pickle
+
+    import numpy as np
+    from beyond.dates import Date
+    from beyond.io.tle import Tle
+    from beyond.propagators.sgp4beta import Sgp4Beta
+
+    f = case["tle"]
+    text = tf.format_text(f)
+    l1, l2 = tf.format_lines(f)
+    cls = [f"where:{case['where']}", f"date:{case['date_scale']}", f"orbit-date:{case['orbit_scale']}",
+           f"source:{case['source']}", f"held:{case['held']}/{case['held_frame']}",
+           f"clone:{case['clone']}", f"route:{case['route']}"]
+    # ---- where the orbit comes from
+    src = case["source"]
+    if src == "lines":
+        tle = Tle(([f["name"]] if f.get("name") else []) + [l1, l2])
+    elif src == "from_string":
+        tle = list(Tle.from_string("# catalogue\n" + text + "\n"))[0]
+    else:
+        tle = Tle(text)
+    if src == "tle-pickle":
+        tle = pickle.loads(pickle.dumps(tle))
+    orb = tle.orbit()
+    if src == "from_orbit":
+        orb = Tle.from_orbit(orb).orbit()  # the orbit of the re-written element set
+    # ---- under which label its date is known
+    epoch_dt = orb.date.datetime
+    if case["orbit_scale"] != "UTC":
+        orb.date = orb.date.change_scale(case["orbit_scale"])
+        if abs((orb.date.change_scale("UTC").datetime - epoch_dt).total_seconds()) > 1e-6:
+            return dict(nt=False, cls=cls + ["relabel-moves-the-instant(C03)"])
+    # ---- in which form / frame it is held (only where the way back to the same text is well conditioned)
+    e, inc = f["ecc"] / 1e7, f["inc"] / 1e4
+    held, frame = case["held"], case["held_frame"]
+    if held not in ("tle", "keplerian_mean") and e < 1e-3:
+        held = "tle"
+    if held == "equinoctial" and not (0.5 <= inc <= 179.5):
+        held = "tle"
+    if frame != "TEME" and (e < 1e-3 or not (0.5 <= inc <= 179.5)):
+        frame = "TEME"
+    if (held, frame) != ("tle", "TEME"):
+        orb = orb.copy(form=held, frame=frame)
+        back = Tle.from_orbit(orb).text
+        if back != f"{l1}\n{l2}":
+            # e >= 1e-3 and 0.5 <= i <= 179.5 deg here: the conversions are conditioned to ~1e-13, the printed
+            # grids are 1e-4 deg / 1e-7 / 1e-8 and the elements sit ON the grid: no digit can flip
+            d = [k for k in range(len(back)) if k >= len(text) or back[k] != (l1 + "\n" + l2)[k]]
+            raise Violation("spelling:held-text", f"the orbit held as {held}/{frame} is written back as another element "
+                            f"set (first difference at character {d[0] if d else '?'}): {back.splitlines()}")
+    # ---- the target, under its label
+    mjd, us = target(f, case["dt_us"])
+    date_dt = to_datetime(mjd, us)
+    date = Date(date_dt)
+    if case["date_scale"] != "UTC":
+        date = date.change_scale(case["date_scale"])
+        if abs((date.change_scale("UTC").datetime - date_dt).total_seconds()) > 1e-6:
+            return dict(nt=False, cls=cls + ["relabel-moves-the-instant(C03)"])
+    route = case["route"]
+    native = route.startswith("native")
+    # ---- clones
+    if case["clone_when"] == "initialised" and not native:
+        try:
+            orb.propagate(date + _dt.timedelta(hours=5))
+        except Exception:
+            pass
+        cls.append("clone-of-initialised")
+    orb = _clone(orb, case["clone"])
+
+    def expect(utc_dt):
+        d = utc_dt - to_datetime(*epoch_us(f))
+        dt_us = (d.days * 86400 + d.seconds) * 10**6 + d.microseconds
+        m, u = target(f, dt_us)
+        err, rr, rv, sat = reference(f, m, u)
+        return dt_us, err, rr, rv, sat
+
+    worst = 0.0
+    compared = 0
+
+    def judge(sv, want_dt=None):
+        nonlocal worst, compared
+        utc_dt = sv.date.change_scale("UTC").datetime
+        if want_dt is not None and utc_dt != want_dt:
+            # "epoch + timedelta" is an addition on the clock of the orbit's own scale: under a TDB label it
+            # differs from the UTC sum by the periodic term (ms), under TT/TAI/GPS by the leap seconds crossed.
+            # The state is then judged at the date the result carries.
+            slack = 2.0 if (route.endswith("timedelta") and case["orbit_scale"] != "UTC") else 0.0
+            if route in ("iter-dates", "iter-range", "ephem"):
+                slack = 1.5e-6  # dates that went through Date arithmetic: one tick of the microsecond grid
+            if abs((utc_dt - want_dt).total_seconds()) > slack:
+                raise Violation("spelling:date", f"result dated {sv.date} (UTC {utc_dt}), asked {want_dt} UTC [{cls}]")
+            cls.append("timedelta-on-own-clock")
+        dt_us, err, rr, rv, sat = expect(utc_dt)
+        if err != 0:
+            return
+        if native:
+            if sat.method != "n" or sat.altp * sat.radiusearthkm < 220.001 or decayed_en_route(sat, dt_us):
+                return
+            ptol, vtol = 1e-2, 1e-2 * float(np.linalg.norm(rv) / np.linalg.norm(rr))
+        else:
+            ptol, vtol, _ = comparable(sat, dt_us, rr, rv)
+        got = np.asarray(sv.base, float)
+        if sv.frame.name != "TEME" or sv.form.name != "cartesian" or not np.all(np.isfinite(got)):
+            raise Violation("spelling:frame", f"result is {sv.form.name} in {sv.frame.name}: {got.tolist()}")
+        dr, dv = float(np.linalg.norm(got[:3] - rr)), float(np.linalg.norm(got[3:] - rv))
+        worst = max(worst, dr / ptol, dv / vtol)
+        compared += 1
+        if dr > ptol or dv > vtol:
+            raise Violation("spelling:state", f"|dr| = {dr:.6g} m (tol {ptol:.3g}), |dv| = {dv:.6g} m/s (tol {vtol:.3g}) "
+                            f"at {utc_dt} UTC [{', '.join(cls)}]", dr=dr, dv=dv)
+
+    ref_err = expect(date_dt)[1]
+    try:
+        if route == "date":
+            judge(orb.propagate(date), date_dt)
+        elif route == "timedelta":
+            judge(orb.propagate(_dt.timedelta(microseconds=case["dt_us"])), date_dt)
+        elif native:
+            if orb.form.name != "tle":
+                orb = orb.copy(form="tle")
+            if orb.frame.name != "TEME":
+                orb = orb.copy(frame="TEME")
+            prop = _clone(Sgp4Beta(), case["clone"] if case["clone"] != "copy" else "none")
+            prop.orbit = orb
+            if case["clone_when"] == "initialised":
+                prop = _clone(prop, case["clone"] if case["clone"] != "copy" else "deepcopy")
+            arg = date if route == "native-date" else _dt.timedelta(microseconds=case["dt_us"])
+            judge(prop.propagate(arg), date_dt)
+        else:
+            n = case["npts"]
+            # (a single-point range with a negative step is refused by Date.range: C08's subject)
+            step = _dt.timedelta(microseconds=abs(case["step_us"]) if n == 1 else case["step_us"])
+            if route == "iter-dates":
+                dates = [date + k * step for k in range(n)]
+                got = list(orb.iter(dates=dates))
+            elif route == "iter-range":
+                got = list(orb.iter(start=date, stop=step * (n - 1) if n > 1 else _dt.timedelta(0), step=step))
+            else:
+                got = list(orb.ephem(start=date, stop=step * (n - 1) if n > 1 else _dt.timedelta(0), step=step))
+            if len(got) != n:
+                raise Violation("spelling:count", f"{route}: {len(got)} states for {n} dates [{cls}]")
+            for sv in got:
+                judge(sv)
+            # (an Ephem is sorted by date: with a negative step the start is its last point)
+            if not any(abs((sv.date.change_scale("UTC").datetime - date_dt).total_seconds()) <= 1.5e-6 for sv in got):
+                raise Violation("spelling:date", f"{route}: no state at the start date {date_dt} UTC: "
+                                f"{[str(sv.date) for sv in got]} [{cls}]")
+    except Violation:
+        raise
+    except Exception:
+        if ref_err == 0 and not (route.startswith("iter") or route == "ephem"):
+            raise
+        if ref_err == 0:
+            # a later point of the range may be one the reference refuses too
+            step_err = [expect(date_dt + k * _dt.timedelta(microseconds=case["step_us"]))[1] for k in range(case["npts"])]
+            if not any(step_err):
+                raise
+        cls.append("reference-error-on-route")
+    return dict(nt=compared > 0, cls=cls, ratio=worst)
+
+
 FACETS = [
     Facet("wrapper_near_earth", case_strategy("near", ("direct", "direct", "timedelta")), check_wrapper, setup=_eop,
           rule="|offset| > 1 min, reference error code 0", quick=(6, 700), thorough=(16, 8000)),
@@ -523,6 +757,13 @@ FACETS = [
           check_wrapper, setup=_eop,
           rule="|offset| > 1 min; the orbit is copied, converted, or shares its propagator before propagating",
           quick=(6, 400), thorough=(16, 4000)),
+    Facet("spellings", lambda shard, tier: spelling_case(), check_spellings, setup=_eop,
+          rule="at least one state compared; same element set and instant said another way: label of the target "
+               "date and of the orbit's date (6 scales), target within 140 s of a UTC midnight / turn of the year / "
+               "leap-second midnight, orbit from text / lines / from_orbit / from_string / pickled Tle, held in 7 "
+               "forms and 2 frames, cloned 5 ways (fresh or initialised), asked by Date / timedelta / iter / ephem, "
+               "Sgp4 and Sgp4Beta",
+          quick=(8, 250), thorough=(16, 5000)),
     Facet("history", lambda shard, tier: history_case(), check_history, setup=_eop,
           rule=">= 3 states compared and >= 2 propagator objects attached at the end; after every operation "
                "each attached propagator (Sgp4 and Sgp4Beta, 2-3 objects each, 2-3 element sets) must return the "
